@@ -8,7 +8,11 @@ def run(tier, seed):
     for o in obs:
         if ".emit." in o.name and not o.expect_sat: o.replay = rules.replay_pair
     o2, f2 = rules.constructed_iff_selected_obligations("C07"); obs += o2; fns += f2
-    obs.append(rules.frame_mask_obligation("C07"))
+    try:
+        obs.append(rules.frame_mask_obligation("C07"))
+    except extract.Undecided as e:
+        from ..smt import LostUnit
+        obs.append(LostUnit("C07.frame.unit_not_evaluated", "Undecided: %s" % e, "voronoi_cell.rs / convex_cell.rs (syntactic frame check)"))
     smt.discharge_all(obs, tier)
     results = [runner.from_smt(o) for o in obs]
     meta = {
